@@ -161,7 +161,7 @@ OnewayConsumesNothing ==
   \A i \in 1..Len(delivered) : \A k \in 1..Len(wire) : (wire[k].c = delivered[i].to) => wire[k].mode # "oneway"
 
 \* after the final reply has been handed over the connection is usable again
-ReusableAfterFinal == (pipe = <<>> /\ \A t \in Threads : tpc[t] = <<"idle">> /\ ~BugOnewayTakesReader /\ Owners = {}) => free
+ReusableAfterFinal == (pipe = <<>> /\ (\A t \in Threads : tpc[t] = <<"idle">>) /\ Owners = {}) => ConnFree
 
 \* a `more` iteration yields every continues reply in order, then the final reply, then ends:
 \* the results the calls of object c have seen so far are the outcomes of a prefix of its script
